@@ -19,6 +19,12 @@ written back:
                       the list stays what it was; a view they were called on is never held to
                       "closed without change => byte-identical", and a view that may end on a comment
                       line may refuse to close (ValueError, document unchanged)
+  append(v) / replace(x, v) / reference.value = v with a text v that is no value of the list kind
+                      ('' / blanks around it / an embedded separator / a bare line break:
+                      gen.refusable_value): the value factory documents ValueError for it.  The caller
+                      catches the error and goes on normally - the refused call must have left no
+                      trace: the list is what it was, a view closed after nothing but refused calls
+                      leaves the document byte-identical, and later edits give what they always give
   the same view object entered again ("reenter"): list, mode and references live on
   a second view of the same field that is only read (list() / references / not at all) while the
   first one edits: closing it - inside the session, in a later one, or last - must not change a byte
@@ -27,6 +33,9 @@ Signatures (root causes, not inputs):
   read-differs                     a fresh view does not yield split(field text)
   first-line-hash-read-as-comment  ... because the text right after "Name:" starts with '#'
   noop-changes-document            open/close without a successful edit changed the dump
+  refused-edit-changed-document    ... and a mutator had refused its argument with ValueError in between
+  non-item-value-accepted          append/replace/ref.value= took a text the splitting rule can never
+                                   give back as one item (the re-parse clause cannot hold any more)
   step-view-differs                inside the ``with``, list(view) != model after an edit
   comment-leaks-into-value         ... because a comment line shows up inside a rendered value
                                    (also: an existing value is "not in list" for that reason)
@@ -61,7 +70,8 @@ RULE = ("case = one list field (whitespace- or comma-separated; 1..4 lines, thor
         "continuation lines; blanks around separators; leading, trailing, doubled and lonely commas; "
         "comma items spanning lines, with comment lines inside) between other fields, x a history of "
         "0..5 (thorough ..8) chunks of append / remove / replace / ValueReference set+remove (fresh or "
-        "captured when the view was first entered) / absent-value / drain / reformat-mode / "
+        "captured when the view was first entered) / the same three mutators handed a text that is no "
+        "value of the kind (refused: ValueError, then normal use) / absent-value / drain / reformat-mode / "
         "value_formatter(library formatter | single-line | leading-separator formatter; force_reformat "
         "omitted, False, True) / append_comment / append_newline / append_separator / read (list or "
         "references) / close-and-reopen / close-and-re-enter-the-same-view / open, read and close a "
@@ -72,15 +82,24 @@ RULE = ("case = one list field (whitespace- or comma-separated; 1..4 lines, thor
         "append;replace(i), append after comment / newline / separator, each formatter before / after "
         "/ without an edit, every remove(i) and reference assignment followed by value_formatter, "
         "every captured reference used after re-entering the view, a second view (3 ways of reading) "
-        "open during an append and closed inside / after the session} (thorough: + every "
+        "open during an append and closed inside / after the session, a refused append ('' / separator "
+        "inside / blanks around) alone, before re-entering and before a good append, a refused "
+        "replace(i) or reference assignment for every i, remove of an absent value} (thorough: + every "
         "ordered pair of removals). Non-trivial = the field has >=2 "
-        "lines or a comment line, and >=1 edit was applied successfully; distinct = canonical JSON")
+        "lines or a comment line, and >=1 edit was applied successfully or refused; distinct = canonical JSON")
 ASSUMPTIONS = [
     "splitting oracle: drop lines 2.. that start with '#', then str.split() / split(',')+strip+drop "
     "empties (gen/c11_listfields.split_values); the model of a history is a Python list",
     "fields without any value are outside the domain (the value tokenizer asserts non-blank input)",
     "characters: space, tab and printable non-space characters only (no CR/VT/FF/NBSP/U+2028...)",
     "a new value starting with '#' may be rejected with ValueError (either outcome accepted)",
+    "texts that are no value of the kind ('' / surrounding blanks / embedded separator / line break "
+    "without continuation marker and text; gen.refusable_value) must be refused with ValueError by "
+    "append, replace and ValueReference.value (the value factory's own messages; the setter's "
+    "docstring: 'values in whitespace separated lists cannot contain spaces and would trigger an "
+    "exception'); taking one is reported, since the field could never re-parse to the edited list. "
+    "A refused call counts as no edit. Blank-only texts (the tokenizer asserts) and texts with a "
+    "'#'-led line are not used; other invalid texts are skipped",
     "ValueReferences are only used while the value they refer to is still in the list and the view "
     "they came from is alive (it is kept across close + re-enter)",
     "the formatters written here (fmt_single_line, fmt_leading_separator) follow every rule of the "
@@ -107,7 +126,9 @@ EXHAUSTIVE = {
              "x {after append, forced alone, before append}, every remove(i) / ref-set(i) followed by "
              "value_formatter, every captured reference i assigned / removed after re-entering the "
              "same view, a second view read in 3 ways around an append (closed last / inside / in the "
-             "next session), read-only sessions through references}",
+             "next session), read-only sessions through references, 6 histories around a refused "
+             "append / replace / absent remove, a refused replace(i) or ref-set(i) for every i, "
+             "refused captured-reference assignments around a re-enter}",
     "thorough": "as quick with 0..3 further lines, plus every ordered pair remove(i); "
                 "captured-reference remove(j)",
 }
@@ -344,6 +365,7 @@ class Session(object):
         self.value_text = value_text
         self.doc_values = list(doc_values)
         self.edits = 0          # successful mutating steps of this session
+        self.refusals = 0       # mutators that refused their argument (ValueError) in this session
 
     def vals(self):
         return [v for _, v in self.model]
@@ -415,9 +437,31 @@ class Session(object):
         pos = i % len(refs)
         return pos, refs[pos]
 
+    def refused(self, what, call, v):
+        """``call`` hands ``v`` (no value of this kind) to a mutator: ValueError, nothing else happens.
+
+        The caller catches the error and carries on; everything checked from here on (the open view,
+        closing without an edit, the post-conditions of later edits) uses the unchanged model.
+        """
+        try:
+            call()
+        except ValueError:
+            self.refusals += 1
+            self.labels.add("op:%s-refused" % what)
+            self.labels.add("refused-value:" + ("empty" if v == "" else "line-break" if "\n" in v else
+                                                "blanks-around" if v != v.strip(" \t") else
+                                                "separator-inside"))
+            if self.edits:
+                self.labels.add("refused-after-edit")
+            return
+        raise Violation("non-item-value-accepted", "%s took %r, which is no single %s-list value; "
+                        "list was %s" % (what, v, self.kind, short(self.vals())))
+
     def edited(self, label):
         self.edits += 1
         self.labels.add(label)
+        if self.refusals:
+            self.labels.add("edit-after-refused-value")
         if self.entered > 1:
             self.labels.add("edit-in-re-entered-view")
         if self.probe.view is not None:
@@ -428,7 +472,10 @@ class Session(object):
         if k == "append":
             v = op[1]
             if not G.valid_new_value(self.kind, v):
-                self.labels.add("invalid-new-value-skipped")
+                if G.refusable_value(self.kind, v):
+                    self.refused("append", lambda: view.append(v), v)
+                else:
+                    self.labels.add("invalid-new-value-skipped")
                 return
             if self.set_value(lambda: view.append(v), v):
                 model.append([self.next_id, v])
@@ -453,7 +500,10 @@ class Session(object):
             else:
                 w = op[2]
                 if not G.valid_new_value(self.kind, w):
-                    self.labels.add("invalid-new-value-skipped")
+                    if G.refusable_value(self.kind, w):
+                        self.refused("replace", lambda: view.replace(v, w), w)
+                    else:
+                        self.labels.add("invalid-new-value-skipped")
                     return
                 try:
                     ok = self.set_value(lambda: view.replace(v, w), w)
@@ -476,12 +526,19 @@ class Session(object):
                 self.edited("op:ref-remove")
             else:
                 w = op[2]
-                if not G.valid_new_value(self.kind, w):
-                    self.labels.add("invalid-new-value-skipped")
-                    return
 
                 def assign():
                     ref.value = w
+                if not G.valid_new_value(self.kind, w):
+                    if G.refusable_value(self.kind, w):
+                        self.refused("ref-set", assign, w)
+                        if self.observe and ref.value != model[pos][1]:
+                            raise Violation("reference-reads-wrong-value", "after the refused ref.value"
+                                            " = %r the reference reads %r, list is %s"
+                                            % (w, ref.value, short(self.vals())))
+                    else:
+                        self.labels.add("invalid-new-value-skipped")
+                    return
                 if self.set_value(assign, w):
                     model[pos][1] = w
                     self.edited("op:ref-set")
@@ -640,7 +697,7 @@ def check(case):
         labels.add("reopened")
 
     probe = Probe(f, para, kind, name, labels)
-    total_edits = 0
+    total_edits = total_refusals = 0
     s = None
     for no, (how, ops) in enumerate(segments):
         if s is None or how != "reenter":
@@ -673,11 +730,19 @@ def check(case):
                             "did not raise ValueError; dump is %s" % short(dump))
         if s.edits == 0 and not s.touched:
             labels.add("closed-without-change")
+            if s.refusals:
+                labels.add("closed-after-refused-values-only")
+                total_refusals += s.refusals
             if dump != doc:
+                if s.refusals:
+                    raise Violation("refused-edit-changed-document", "a view on which every mutator "
+                                    "call was refused with ValueError turned %s into %s when closed "
+                                    "(steps: %s)" % (short(doc), short(dump), short(ops)))
                 raise Violation("noop-changes-document", "open/close without a successful edit turned "
                                 "%s into %s (steps: %s)" % (short(doc), short(dump), short(ops)))
             continue
         total_edits += s.edits
+        total_refusals += s.refusals
         # (3) locality, validity, read-back
         if not (dump.startswith(prefix + name + ":") and dump.endswith(suffix)
                 and len(dump) >= len(prefix) + len(name) + 1 + len(suffix)):
@@ -711,7 +776,7 @@ def check(case):
     probe.close("after-the-edited-view")
 
     multi = bool(case["rest"])
-    return (multi and total_edits > 0, sorted(labels))
+    return (multi and (total_edits > 0 or total_refusals > 0), sorted(labels))
 
 
 # ------------------------------------------------------------------------------------------
